@@ -338,13 +338,13 @@ def check(ctx):
     ctx.rule("R14.1", "reconstruction completeness of every reachable subs/lambdify rebuild (abstract construction + abstract execution per class)")
     ctx.rule("R14.2", "free_symbols provenance: computed from the same data the arrays read; union over boxes; numpy/sympy module choice")
     ctx.rule("R14.4", "a box is handed back unchanged by subs / lambdify only when no substituted symbol occurs in it")
-    check_early_exits(ctx)
+    ctx.attempt(check_early_exits, ctx)
     ctx.rule("R14.3", "diagram-level subs/lambdify rebuild layer by layer with the same whiskers; sums term-wise; tensors entry-wise")
     nc = check_closures(ctx)
     ctx.need(nc >= 6, "fewer than 6 lambdify methods scanned (%d)" % nc)
-    check_rebuilds(ctx)
-    check_free_symbols(ctx)
-    check_diagram_level(ctx)
+    ctx.attempt(check_rebuilds, ctx)
+    ctx.attempt(check_free_symbols, ctx)
+    ctx.attempt(check_diagram_level, ctx)
     ctx.floor("R14.1", 60)
     ctx.floor("R14.2", 13)
     ctx.floor("R14.3", 9)
